@@ -85,6 +85,11 @@ structure OSt where
   hpUsedThisVisit : Bool := false
   gapPollsThisVisit : Nat := 0
   declinedThisVisit : List Nat := []
+  /-- C12: wrap-around token passes (DA ≤ SA, both ≤ 125) witnessed while listening since the station went online -/
+  wraps : Nat := 0
+  claimedSinceOnline : Bool := false
+  /-- C12: GAP polls sent since the last claim token (none yet = `some 0` right after a claim) -/
+  pollsSinceClaim : Option Nat := none
 
 abbrev Fail := Option (String × String)
 
@@ -221,7 +226,10 @@ def oracleStation (want : String) (o : OSt) (op obs : String) : OSt × Fail :=
                (if h.da.toNat = ts then some ("C12", "GAP poll addressed to the own address") else none),
                (if ¬ InGap ts o.ns o.p.hsa h.da.toNat ∧ ¬ InGap ts r.ns o.p.hsa h.da.toNat then
                   some ("C12", s!"GAP poll of #{h.da.toNat} outside the GAP (TS={ts}, NS={o.ns}, HSA={o.p.hsa})") else none),
-               (if prevSt ≠ "ClaimToken" ∧ o.gapPollsThisVisit ≥ 1 then some ("C12", "second GAP poll within one token visit") else none)]
+               (if prevSt ≠ "ClaimToken" ∧ o.gapPollsThisVisit ≥ 1 then some ("C12", "second GAP poll within one token visit") else none),
+               -- right after claiming a token the whole GAP is swept, starting behind the own address
+               (if prevSt = "ClaimToken" ∧ o.pollsSinceClaim = some 0 ∧ h.da.toNat ≠ (if ts + 1 = o.p.hsa then 0 else ts + 1) then
+                  some ("C12", s!"first GAP poll after a claim goes to #{h.da.toNat}, not to the address behind the own one") else none)]
            | .response state status =>
              if prevSt = "ListenToken" ∨ prevSt = "ActiveIdle" then
                first [
@@ -231,6 +239,8 @@ def oracleStation (want : String) (o : OSt) (op obs : String) : OSt × Fail :=
                  (if prevSt = "ListenToken" ∧ state = .masterInRing then some ("C12", "listening station reports MasterInRing") else none),
                  (if prevSt = "ListenToken" ∧ state = .masterWithoutToken ∧ ¬ (o.ready ∧ h.da.toNat = o.ps) then
                     some ("C12", "reports 'ready' although the LAS is not valid or the requester is not the predecessor") else none),
+                 (if prevSt = "ListenToken" ∧ state = .masterWithoutToken ∧ o.wraps < 3 ∧ ¬ o.claimedSinceOnline then
+                    some ("C12", s!"reports 'ready' after only {o.wraps} witnessed wrap-arounds since going online (two identical rotations need three)") else none),
                  (if prevSt = "ListenToken" ∧ state = .masterNotReady ∧ (o.ready ∧ h.da.toNat = o.ps) then
                     some ("C12", "reports 'not ready' to the predecessor although two identical rotations were seen") else none)]
              else none
@@ -240,6 +250,9 @@ def oracleStation (want : String) (o : OSt) (op obs : String) : OSt × Fail :=
       let tCalls := r.calls.filter (·.startsWith "T")
       let rCalls := r.calls.filter fun c => c.startsWith "R" || c.startsWith "O"
       let appOf (c : String) : Nat := (((c.drop 1).toString.splitOn ".").headD "").toNat!
+      -- a new token visit starts when UseToken is entered from outside UseToken/AwaitDataResponse; the calls of
+      -- this poll belong to the visit that was running before the poll
+      let enteringUseEarly : Bool := false
       let c15 : Fail :=
         if want ≠ "C15" then none else
         first [
@@ -273,7 +286,7 @@ def oracleStation (want : String) (o : OSt) (op obs : String) : OSt × Fail :=
            let okSeq := (asked.zip (asked.drop 1)).all fun (a, b) => b == (a + 1) % (max o.napps 1)
            if ¬ okSeq then some ("C15", s!"applications asked out of round-robin order: {asked}") else
            if asked.length > o.napps then some ("C15", "an application was asked twice in one poll") else
-           if asked.any (fun a => o.declinedThisVisit.contains a) ∧ prevSt = "UseToken" ∧ o.curReceipt.isSome ∧ false then
+           if asked.any (fun a => o.declinedThisVisit.contains a) ∧ ¬ enteringUseEarly then
              some ("C15", "an application that declined was asked again in the same token visit") else none)]
       let c13 : Fail :=
         if want ≠ "C13" then none else
@@ -360,7 +373,22 @@ def oracleStation (want : String) (o : OSt) (op obs : String) : OSt × Fail :=
             | some (.data h _) => (match h.fc with | .request _ .fdlStatus => !fromApp | _ => false)
             | _ => false
            if enteringUse then 0 else if isGap then o.gapPollsThisVisit + 1 else o.gapPollsThisVisit),
-        declinedThisVisit := if enteringUse then [] else o.declinedThisVisit }
+        declinedThisVisit :=
+          (let newDeclined := (tCalls.filter fun c => (c.splitOn ".").getD 2 "" == "d").map appOf
+           if enteringUse then [] else if r.st == "UseToken" || r.st == "AwaitDataResponse" then o.declinedThisVisit ++ newDeclined else []),
+        wraps :=
+          (let w := delivered.filter fun t => match t with
+             | .token da sa => decide (da.toNat ≤ 125 ∧ sa.toNat ≤ 125 ∧ da.toNat ≤ sa.toNat ∧ sa.toNat ≠ ts)
+             | _ => false
+           if prevSt == "ListenToken" || prevSt == "Offline" then o.wraps + w.length else o.wraps),
+        claimedSinceOnline := o.claimedSinceOnline || r.st == "ClaimToken",
+        pollsSinceClaim :=
+          (let isClaimTok := match r.tx with | some b => (isTokenFrame b) == some (ts, ts) && prevSt == "ClaimToken" | none => false
+           let isGapPoll := match txT with
+             | some (.data h _) => (match h.fc with | .request _ .fdlStatus => !fromApp | _ => false)
+             | _ => false
+           if isClaimTok then some 0 else if r.st != "ClaimToken" then none
+           else if isGapPoll then o.pollsSinceClaim.map (· + 1) else o.pollsSinceClaim) }
       (o', first [c01, c11, c12, c15, c13, c06])
     | _, _ => (o, some (want, s!"unparsable observation: {obs}"))
   | _ => (o, none)
